@@ -679,7 +679,8 @@ def run_crash_all(seed, tier, n=None, kinds=KINDS):
         W = doc0["writes"]
         res.hist["writes-per-scenario"] += W
         for k in range(W + 1):
-            second = R.randint(0, 4) if tier == "thorough" else None
+            # a second crash soon after the restart (thorough: after every first crash; quick: after every third)
+            second = R.randint(0, 4) if (tier == "thorough" or k % 3 == 1) else None
             rdoc = {"suite": "oracle", "kind": kind, "mode": "plain", "seed": sseed, "crash_at": k, "second": second, "maxlen": 14}
             try:
                 lines, expect, doc, tags = guarded(sseed, kind, "plain", res, crash_at=k, second=second, maxlen=14)
